@@ -411,6 +411,39 @@ def check_null(ck, prog):
     ck.floor("C04-NULL", 40, "obligations")
 
 
+def check_distvalid(ck, prog):
+    """dict_is_distance_valid() is the only thing that keeps a match distance inside the decoded history: it has to be
+    exactly `dict->full > distance`.  Any weakening (an extra disjunct such as `has_wrapped || ...`) lets a crafted stream
+    read outside what was decoded -- into uninitialised parts of the dictionary or, with a distance beyond the buffer,
+    outside the allocation."""
+    ck.rule("C04-DISTVALID", "dict_is_distance_valid() is the single comparison dict->full > distance")
+    f = None
+    for cand in prog.functions.get("dict_is_distance_valid", []):
+        if cand.blocks:
+            f = cand
+    if f is None:
+        raise AnalysisBroken("dict_is_distance_valid not found")
+    ck.saw_function(f)
+    rets = [ex.deref(e) for b, i, e in f.iter_elems() if ex.deref(e).get("k") == "ret" and ex.deref(e).get("e") is not None]
+    conds = [b.term["cond"] for b in f.blocks.values() if b.term and "cond" in b.term]
+    ok = False
+    shown = "?"
+    if len(rets) == 1 and not conds:
+        r = ex.strip(rets[0]["e"])
+        shown = ex.show(r)
+        if r.get("k") == "bin" and r["op"] in (">", "<"):
+            a, b_ = ex.show(r["l"]), ex.show(r["r"])
+            ok = (r["op"] == ">" and a == "dict->full" and b_ == "distance") or \
+                 (r["op"] == "<" and a == "distance" and b_ == "dict->full")
+    else:
+        shown = " / ".join(ex.show(c) for c in conds) or shown
+    ck.ob("C04-DISTVALID", "dict_is_distance_valid", ok, common.where(f),
+          "dict_is_distance_valid: `%s`" % shown if ok else
+          "dict_is_distance_valid() is `%s` instead of the single comparison `dict->full > distance`: match distances beyond "
+          "the decoded history are accepted, a crafted stream copies uninitialised or out-of-buffer memory into the output"
+          % shown, key="DISTVALID:dict_is_distance_valid")
+
+
 def check_allocsz(ck, prog):
     """Allocation sizes of the form  C1 + n * C2  where n comes from the input: n must be clamped to a constant K with
     C1 + K * C2 <= SIZE_MAX, otherwise the multiplication wraps and a tiny block is allocated for n records."""
@@ -572,6 +605,7 @@ def run(ck):
     check_cast(ck, prog)
     check_null(ck, prog)
     check_allocsz(ck, prog)
+    check_distvalid(ck, prog)
     # invalid input must not leak (rule shared with C10) nor stall the threaded decoder (rule shared with C07)
     from . import C10, C07
     C10.check_localown(ck, prog)
@@ -585,3 +619,6 @@ def run(ck):
     from . import C03
     C03.check_dict_siblings(ck, prog)
     C03.check_dict_fresh(ck, prog, rule="C04-DICTFRESH")
+    # the file info decoder never asks for a seek target before the start of the file (rule shared with C13)
+    from . import C13
+    C13.check_seek(ck, prog)
